@@ -185,25 +185,38 @@ where
     where
         FIP: FnOnce() -> T,
     {
-        // We do not today make use of our right to create a "first" instance of `T` even when
-        // we do not need it. This is a potential future optimization if it proves valuable.
-
-        let mut global_registry = GLOBAL_REGISTRY.write().expect(ERR_POISONED_LOCK);
-
         // TODO: We are repeatedly acquiring the family key here and in sibling functions.
         // Perhaps a trivial cost but explore the value of eliminating the duplicate access.
         let family_key = (self.family_key_provider)();
-        let entry = global_registry.entry(family_key);
 
-        match entry {
-            hash_map::Entry::Occupied(_) => (),
-            hash_map::Entry::Vacant(entry) => {
-                // TODO: We create an instance here, only to immediately transform it back to
-                // a family. Can we skip the middle step and just create a family directly?
-                let first_instance = first_instance_provider();
-                entry.insert(Box::new(first_instance.family()));
-            }
+        if GLOBAL_REGISTRY
+            .read()
+            .expect(ERR_POISONED_LOCK)
+            .contains_key(&family_key)
+        {
+            return;
         }
+
+        // The provider is arbitrary user code that may itself access other linked static
+        // variables, which needs the registry lock, so we must not hold the lock while calling
+        // it. This is where we make use of our right to create a "first" instance of `T` that
+        // may prove unnecessary: if another thread registers the family before we do, ours is
+        // thrown away without ever having been exposed to anyone.
+        //
+        // TODO: We create an instance here, only to immediately transform it back to
+        // a family. Can we skip the middle step and just create a family directly?
+        let first_instance = first_instance_provider();
+        let family = first_instance.family();
+
+        let mut global_registry = GLOBAL_REGISTRY.write().expect(ERR_POISONED_LOCK);
+
+        if let hash_map::Entry::Vacant(entry) = global_registry.entry(family_key) {
+            entry.insert(Box::new(family));
+        }
+
+        // Dropping the first instance (and the family, if it proved unnecessary) may also execute
+        // arbitrary code, so the lock is released before they go out of scope.
+        drop(global_registry);
     }
 
     // Attempts to obtain a new instance of `T` using the current thread's family registry,
@@ -442,6 +455,25 @@ mod tests {
 
         assert_eq!(BLUE_TOKEN_CACHE.get().value(), 1002);
         assert_eq!(YELLOW_TOKEN_CACHE.get().value(), 2002);
+    }
+
+    #[test]
+    fn initializer_may_use_other_linked_statics() {
+        linked::instances! {
+            static INNER_TOKEN_CACHE: TokenCache = TokenCache::new(7);
+            static OUTER_TOKEN_CACHE: TokenCache =
+                TokenCache::new(INNER_TOKEN_CACHE.get().value().saturating_add(1));
+        }
+
+        // The first access of OUTER makes the first access of INNER from inside the initializer.
+        assert_eq!(OUTER_TOKEN_CACHE.get().value(), 8);
+        assert_eq!(INNER_TOKEN_CACHE.get().value(), 7);
+
+        thread::spawn(|| {
+            assert_eq!(OUTER_TOKEN_CACHE.get().value(), 8);
+        })
+        .join()
+        .unwrap();
     }
 
     #[test]
